@@ -169,3 +169,30 @@ def read_mutlog(path):
             except ValueError:
                 pass
     return out
+
+
+def diff_class(now, fresh):
+    """'equal' | 'dist-order' (the files differ only in the order of the
+    words of the dist recipes) | 'other'"""
+    if fresh is None:
+        return 'other'
+    if now == fresh:
+        return 'equal'
+    if set(now) != set(fresh):
+        return 'other'
+    for k in now:
+        a, b = now[k], fresh[k]
+        if a == b:
+            continue
+        if a is None or b is None:
+            return 'other'
+        la, lb = a.decode(errors='replace').split('\n'), \
+            b.decode(errors='replace').split('\n')
+        if len(la) != len(lb):
+            return 'other'
+        for x, y in zip(la, lb):
+            if x != y:
+                if 'doppel' not in x.lower() or \
+                        sorted(x.split()) != sorted(y.split()):
+                    return 'other'
+    return 'dist-order'
